@@ -195,6 +195,17 @@ func (p *Prop) Generate(base uint64, index int, env *sim.Env) *sim.Case {
 				for j := 0; j < k; j++ {
 					cl.Pages = append(cl.Pages, pageArg())
 				}
+				if pr.Pct(8) {
+					// a list that looks like the whole document (as many entries as pages, from
+					// the first to the last) but is not: a duplicate or a stray value inside
+					cl.Pages = nil
+					for q := 1; q <= count; q++ {
+						cl.Pages = append(cl.Pages, q)
+					}
+					if count >= 3 {
+						cl.Pages[1+pr.Intn(count-2)] = pageArg()
+					}
+				}
 			case "range":
 				cl.A, cl.B = pageArg(), pageArg()
 				if pr.Pct(70) && cl.A > cl.B {
